@@ -123,6 +123,12 @@ func execBusOps(ops []busOp) []string {
 		}
 	}()
 	var log []string
+	return runBusOpsOn(b, ops, &log)
+}
+
+// runBusOpsOn runs the operations on the given bus and renders each result in the protocol's canonical form
+func runBusOpsOn(b *bus.Bus, ops []busOp, logp *[]string) []string {
+	// the memories attached below append to *logp: the caller passes the same log in every call that concerns the same memories
 	out := make([]string, len(ops))
 	for i, o := range ops {
 		func() {
@@ -139,11 +145,11 @@ func execBusOps(ops []busOp) []string {
 				if o.e < o.s {
 					sz = 16 << ((o.m + o.s>>4 + o.e) % 9)
 				}
-				var mm memory.Memory = &logMem{o.m, &log, sz}
+				var mm memory.Memory = &logMem{o.m, logp, sz}
 				if o.m >= 5 && o.s%16 == 0 && (o.e+1)%16 == 0 && o.e >= o.s && o.e <= 0xFFFFFF && o.e-o.s < 1<<16 {
-					mm = realMemory(o.m, o.s, o.e, &log) // ids 5 and 6 are the library's own RAM / ROM devices
+					mm = realMemory(o.m, o.s, o.e, logp) // ids 5 and 6 are the library's own RAM / ROM devices
 				} else if o.m >= 5 && o.e < o.s && o.s <= 0xFFFFFF && o.s+sz-1 <= 0xFFFFFF {
-					mm = realMemory(o.m, o.s, o.s+sz-1, &log) // a real device of that size where the range would start
+					mm = realMemory(o.m, o.s, o.s+sz-1, logp) // a real device of that size where the range would start
 				}
 				err := b.Attach(mm, "m", o.s, o.e)
 				if err == nil && (o.s%16 != 0 || (o.e+1)%16 != 0) {
@@ -158,36 +164,36 @@ func execBusOps(ops []busOp) []string {
 					out[i] = "ee"
 				}
 			case 'R':
-				log = log[:0]
+				*logp = (*logp)[:0]
 				v := b.EaRead(o.s)
-				if len(log) != 1 {
-					out[i] = fmt.Sprintf("log%d", len(log))
+				if len(*logp) != 1 {
+					out[i] = fmt.Sprintf("log%d", len(*logp))
 				} else {
-					out[i] = log[0]
+					out[i] = (*logp)[0]
 					// the byte returned must be the routed memory's byte
 					var id, a uint32
-					fmt.Sscanf(log[0], "m%x:%x", &id, &a)
+					fmt.Sscanf((*logp)[0], "m%x:%x", &id, &a)
 					if v != prng.Hash(uint64(id), a) {
 						out[i] += "!value"
 					}
 				}
 			case 'W':
-				log = log[:0]
+				*logp = (*logp)[:0]
 				b.EaWrite(o.s, 0x5A)
-				if len(log) != 1 {
-					out[i] = fmt.Sprintf("log%d", len(log))
+				if len(*logp) != 1 {
+					out[i] = fmt.Sprintf("log%d", len(*logp))
 				} else {
-					out[i] = log[0]
+					out[i] = (*logp)[0]
 				}
 			case 'T':
-				log = log[:0]
+				*logp = (*logp)[:0]
 				v := b.EaRead24_wrap(byte(o.s>>16), uint16(o.s))
-				if len(log) != 3 {
-					out[i] = fmt.Sprintf("log%d", len(log))
+				if len(*logp) != 3 {
+					out[i] = fmt.Sprintf("log%d", len(*logp))
 				} else {
-					out[i] = strings.Join(log, ",")
+					out[i] = strings.Join(*logp, ",")
 					var want uint32
-					for k, l := range log {
+					for k, l := range *logp {
 						var id, a uint32
 						fmt.Sscanf(l, "m%x:%x", &id, &a)
 						want |= uint32(prng.Hash(uint64(id), a)) << (8 * uint(k))
@@ -552,6 +558,149 @@ func busOracle(ops []busOp) []string {
 	return out
 }
 
+// ---- buses related by struct copy ----
+//
+// A bus.Bus copied by value is a separate object: an Attach on the copy is not an Attach on the original (and vice versa). Each
+// case attaches a few ranges to a bus, copies the struct, attaches further ranges to the copy and to the original (inside the same
+// banks, in banks only one of them uses, whole banks) and then probes both at the ends of every range: each bus must route
+// according to its own Attach history only (the shared prefix plus its own later calls).
+type busCopyCase struct {
+	pre, onCopy, onOrig, probes []busOp
+}
+
+func (c busCopyCase) String() string {
+	return "bus1: " + renderOps(c.pre) + " | bus2 := *bus1 (copied by value) | bus2: " + renderOps(c.onCopy) + " | bus1: " + renderOps(c.onOrig) + " | both probed: " + renderOps(c.probes)
+}
+
+func genBusCopyCase(r *prng.R) busCopyCase {
+	var c busCopyCase
+	banks := []uint32{uint32(r.N(256)), uint32(r.N(256)), uint32(r.N(256)), 0, 0xFF}
+	rng := func() (uint32, uint32) {
+		b := banks[r.N(len(banks))]
+		switch r.N(4) {
+		case 0: // whole bank(s)
+			e := b + uint32(r.N(3))
+			if e > 0xFF {
+				e = 0xFF
+			}
+			return b << 16, e<<16 | 0xFFFF
+		case 1: // half a bank
+			h := uint32(r.N(2)) << 15
+			return b<<16 | h, b<<16 | h | 0x7FFF
+		}
+		s := b<<16 | uint32(r.N(0x1000))<<4
+		e := s + uint32(r.N(64))<<4 + 15
+		if e > 0xFFFFFF {
+			e = 0xFFFFFF
+		}
+		return s, e
+	}
+	id := uint32(1)
+	att := func(n int) []busOp {
+		var ops []busOp
+		for i := 0; i < n; i++ {
+			s, e := rng()
+			ops = append(ops, busOp{kind: 'A', m: id, s: s, e: e})
+			id++
+		}
+		return ops
+	}
+	c.pre = att(r.N(4)) // sometimes nothing at all is attached before the copy
+	c.onCopy = att(1 + r.N(3))
+	c.onOrig = att(r.N(3))
+	var all []busOp
+	all = append(append(append(all, c.pre...), c.onCopy...), c.onOrig...)
+	for _, o := range all {
+		for _, a := range []uint32{o.s, o.s - 1, o.e, o.e + 1, o.s + (o.e-o.s)/2, o.s + 16, o.e - 16} {
+			if a > 0xFFFFFF {
+				continue
+			}
+			switch r.N(8) {
+			case 0:
+				c.probes = append(c.probes, busOp{kind: 'W', s: a})
+			case 1:
+				c.probes = append(c.probes, busOp{kind: 'T', s: a})
+			case 2:
+				lo := a - min(a, uint32(r.N(24)))
+				hi := min(a+uint32(r.N(24)), 0xFFFFFF)
+				c.probes = append(c.probes, busOp{kind: 'D', s: lo, e: hi, n: hi - lo + 1})
+			default:
+				c.probes = append(c.probes, busOp{kind: 'R', s: a})
+			}
+		}
+	}
+	return c
+}
+
+// run: (results of the probes on the original, on the copy), (what the property demands for each)
+func (c busCopyCase) run() (got1, got2, want1, want2 []string) {
+	cat := func(xs ...[]busOp) []busOp {
+		var o []busOp
+		for _, x := range xs {
+			o = append(o, x...)
+		}
+		return o
+	}
+	var log []string
+	b1, _ := bus.New()
+	runBusOpsOn(b1, c.pre, &log)
+	cp := *b1
+	b2 := &cp
+	runBusOpsOn(b2, c.onCopy, &log)
+	runBusOpsOn(b1, c.onOrig, &log)
+	got1 = runBusOpsOn(b1, c.probes, &log)
+	got2 = runBusOpsOn(b2, c.probes, &log)
+	k := len(c.pre)
+	want1 = busOracle(cat(c.pre, c.onOrig, c.probes))[k+len(c.onOrig):]
+	want2 = busOracle(cat(c.pre, c.onCopy, c.probes))[k+len(c.onCopy):]
+	return
+}
+
+func (c busCopyCase) fails() (which string, at int, want, got string, bad bool) {
+	g1, g2, w1, w2 := c.run()
+	for i := range c.probes {
+		if g1[i] != w1[i] {
+			return "bus1 (the original)", i, w1[i], g1[i], true
+		}
+		if g2[i] != w2[i] {
+			return "bus2 (the copy)", i, w2[i], g2[i], true
+		}
+	}
+	return "", 0, "", "", false
+}
+
+func runBusCopies(rep *report.Report) {
+	n := 14
+	if tier == "thorough" {
+		n = 300
+	}
+	r := prng.New(seed ^ 0xc0b1)
+	for i := 0; i < n; i++ {
+		c := genBusCopyCase(r.Fork())
+		rep.Count("bus copied by value: cases")
+		rep.CountN("bus copied by value: probes", int64(2*len(c.probes)))
+		rep.Evaluations += int64(2 * len(c.probes))
+		if _, _, _, _, bad := c.fails(); !bad {
+			continue
+		}
+		// minimise: drop attaches and probes while some probe still disagrees
+		for _, list := range []*[]busOp{&c.probes, &c.onOrig, &c.pre, &c.onCopy} {
+			for j := 0; j < len(*list); j++ {
+				saved := *list
+				*list = append(append([]busOp{}, saved[:j]...), saved[j+1:]...)
+				if _, _, _, _, bad := c.fails(); bad {
+					j--
+				} else {
+					*list = saved
+				}
+			}
+		}
+		which, at, want, got, _ := c.fails()
+		rep.Add(report.Finding{Property: "C13", Kind: "violation", Clause: "a bus routes according to the Attach calls made on it: an Attach on a by-value copy of a Bus is not an Attach on the original (nor the other way round)",
+			Input: c.String(), Expected: fmt.Sprintf("%s, probe %d (%s): %s", which, at+1, c.probes[at].String(), want), Actual: got})
+	}
+}
+
 func shrinkBus(ops []busOp, fails func([]busOp) bool) []busOp {
 	for changed := true; changed; {
 		changed = false
@@ -685,6 +834,7 @@ func runBus() {
 		}
 	}
 	rep.Evaluations = ops
+	runBusCopies(rep)
 	rep.Distinct = int64(len(distinct))
 	rep.CountN("histories", int64(len(hists)))
 	rep.Rule = "random Attach/read/write/24-bit-read/dump histories (aligned, misaligned, overlapping, adjacent, re-attached, empty ranges; a third of the histories attach ranges spanning several whole " +
@@ -692,6 +842,7 @@ func runBus() {
 		"ends at $000000 / $FFFFFF, memories reporting non-zero sizes; after most Attach calls a burst of probes at the ends of all ranges, the same offsets in sibling banks, neighbouring segments, " +
 		"device-size distances and the borders of the space, including a byte access right after a 24-bit read; dumps with every start/end alignment " +
 		"across memories and holes; memories 5 and 6 are the library's own memory.RAM / memory.ROM with offsets that are not multiples of 16; windows at $000000, random and $FFFC00) run on the real bus.Bus with address-logging memories, on the Lean model and on a Go oracle of the property; " +
+		"buses related by struct copy: ranges attached to a bus, the bus.Bus copied by value, further ranges attached to the copy and to the original (same banks, other banks, whole banks), both probed at every range end against their own Attach history; " +
 		"evaluations = operations executed; distinct_nontrivial = distinct history shapes (sequence of op kind + outcome class)"
 	rep.Emit()
 }
